@@ -22,7 +22,16 @@ def sweeps(ctx):
     ]
 
 
-def family_blocks(ctx):
+FAMILIES = {
+    # property -> [(flatblock kind, quick count, thorough count)]
+    "C01": [("destroy", 400, 6000), ("code", 400, 6000)],
+    # EIP-7702 blocks: authorisations move a sender's nonce between its own transactions, senders with
+    # stale / future nonces (in-order: skipped) next to valid ones
+    "C03": [("code", 2500, 40000)],
+}
+
+
+def family_blocks(ctx, pid="C01"):
     """Block families the conflict-heavy generator does not produce (C01 only): in-block create /
     self-destruct / re-create / EIP-161 deletion with later readers and writers, and in-block code
     changes (CREATE, EIP-7702 set / re-point / clear) - harness/src/bin/flatblock.rs, free-threaded,
@@ -32,8 +41,8 @@ def family_blocks(ctx):
     if not ok:
         raise RuntimeError("cargo build failed:\n" + out[-3000:])
     res = []
-    for kind in ("destroy", "code"):
-        bl = fc.block_runs(ctx, bins["flatblock"], kind, 150 if ctx.quick else 4000)
+    for kind, nq, nt in FAMILIES[pid]:
+        bl = fc.block_runs(ctx, bins["flatblock"], kind, nq if ctx.quick else nt)
         res.append(dict(kind=kind, cases=bl.get("cases", 0), mismatch_lines=bl["mismatch_lines"]))
     return res
 
@@ -43,8 +52,8 @@ def run(ctx, pid=PID, sweeps_fn=None, what="grevm's result differs from in-order
     for p in proof["problems"]:
         core.log("proof-stage problem:", p)
     agg, bins, model = sc.run_sweeps(ctx, (sweeps_fn or sweeps)(ctx))
-    if pid == PID:
-        fam = family_blocks(ctx)
+    if pid in FAMILIES:
+        fam = family_blocks(ctx, pid)
         for f in fam:
             agg["cases"] += f["cases"]
             for l in f["mismatch_lines"][:1]:
